@@ -9,7 +9,7 @@ Import ListNotations.
 Definition is_tmpl (ly : layer) (x k y : nat) : Prop := In ((x, k), (y, 0)) (ledges ly).
 
 Definition single (o : op) : Prop :=
-  match o with AddEdges _ _ | RemoveEdges _ _ | Orient _ _ => False | _ => True end.   (* Orient = RemoveEdge ; AddEdge *)
+  match o with AddEdges _ _ | RemoveEdges _ _ | Orient _ _ | AddVars _ | RemoveVars _ | AddNodes _ => False | _ => True end.   (* Orient = RemoveEdge ; AddEdge *)
 
 (* the template an edge call (u, v) denotes in a layer (after putting an unordered pair into canonical order) *)
 Definition call_tmpl (ly : layer) (u v : tnode) : nat * nat * nat :=
@@ -149,4 +149,9 @@ Proof.
   - (* HasEdge *)
     destruct (query_has_edge s i u v); inversion E; subst s'. split; [reflexivity|].
     intros j ly ly' Hj Hj' x k y. rewrite Hj in Hj'. inversion Hj'; subst. tauto.
+  - (* AddNode *)
+    destruct (valid_node s u); inversion E; subst s'. change (layers (add_var s (fst u))) with (layers s). split; [reflexivity|].
+    intros j ly ly' Hj Hj' x k y. rewrite Hj in Hj'. inversion Hj'; subst. tauto.
+  - (* Bad *)
+    discriminate.
 Qed.
